@@ -150,8 +150,9 @@ CLAIMED['C03'] = dict(
           'for the own class and > 1 otherwise; hence the next E-step keeps every observation in its true class for cACG '
           '(pi_k/pi_j < q^D, in particular equal weights) and for Watson / vMF (kappa (1 - al) > ln(pi_k/pi_j)); for the GMM with a '
           "shared spherical covariance c the model's SphericalGaussian log-pdf ranks the classes by weight-adjusted squared distance "
-          '(|y - mu_j|^2 + 2 c ln(pi_k/pi_j) < |y - mu_k|^2 gives MAP class j, every D). NOT proved: '
-          'perturbed prototypes, blurred starts, iterations >= 2, full / diagonal Gaussian / Bingham / integration models (eigenvector perturbation '
+          '(|y - mu_j|^2 + 2 c ln(pi_k/pi_j) < |y - mu_k|^2 gives MAP class j, every D), and with a shared diagonal covariance by the '
+          'weight-adjusted Mahalanobis distance. NOT proved: '
+          'perturbed prototypes, blurred starts, iterations >= 2, full Gaussian / Bingham / integration models (eigenvector perturbation '
           "bounds are out of reach): those clauses are EXPLORED - the property's own predicate (MAP class = true class for every "
           'observation; fitted parameters point at their prototype) is evaluated on every generated scene from the stated domain '
           '(K 2..4, D K..8, |cos| <= 0.3, perturbation 0 / 1e-4 / 1e-2, class sizes >= D+2, gains 1e-3..1e3, blur 0..0.45, 1..20 '
